@@ -9,6 +9,8 @@ PAIRS = [("Gen/RequireGlue.v", "resolve_src", "Model/ResolveSrc.v", "expected_re
           "the text of the string entry points of buffer/buffer.go that Model/BufferStrings.v was written against"),
          ("Gen/UrlTables.v", "usp_src", "Model/UspSrc.v", "expected_usp_src",
           "the text of the URLSearchParams code (urlsearchparams.go, nodeurl.go, escape.go) that Model/SearchParams.v was written against"),
+         ("Gen/UrlGlue.v", "url_funcs", "Model/UrlSrc.v", "expected_url_funcs",
+          "the text of the functions of url/url.go that handle the URL object's state, which Model/UrlObject.v and Model/UrlResolve.v were written against"),
          ("Gen/UtilFormat.v", "console_util_src", "Model/ConsoleSrc.v", "expected_console_util_src",
           "the text of every function of console/module.go and util/module.go that Model/Format.v (format, console routing) was written against")]
 for gen, gname, model, mname, what in PAIRS:
@@ -20,6 +22,11 @@ for gen, gname, model, mname, what in PAIRS:
            "From Coq Require Import String List.\nImport ListNotations.\n"
            "Definition %s : list (string * string) := [%s]%%string.\n") % (model, what, gen, mname, m.group(1))
     path = os.path.join(COQ, model)
+    if os.path.exists(path):   # keep the file as it is (imports, lemmas after the table) and replace the table only
+        cur = open(path).read()
+        mm = re.search(r"(Definition %s : list \(string \* string\) := \[)(.*?)(\]%%string\.)" % mname, cur, re.S)
+        if mm:
+            out = cur[:mm.start(2)] + m.group(1) + cur[mm.end(2):]
     if not os.path.exists(path) or open(path).read() != out:
         open(path, "w").write(out)
         print("updated", model)
